@@ -84,49 +84,6 @@ def twin_no_content_type(c: int) -> bool:
     return False
 
 
-def check_json_two(c: int, d: int) -> bool:
-    """
-    pre: 0 <= c <= 0x10FFFF
-    pre: not (0xD800 <= c <= 0xDFFF)
-    pre: 0 <= d <= 0x10FFFF
-    pre: not (0xD800 <= d <= 0xDFFF)
-    post: _
-    """
-    return _roundtrip("application/json", chr(c) + chr(d))
-
-
-def twin_json_two(c: int, d: int) -> bool:
-    """
-    pre: 0 <= c <= 0x10FFFF
-    pre: not (0xD800 <= c <= 0xDFFF)
-    pre: 0 <= d <= 0x10FFFF
-    pre: not (0xD800 <= d <= 0xDFFF)
-    post: _
-    """
-    _roundtrip("application/json", chr(c) + chr(d))
-    return False
-
-
-def check_surrogate_escape(c: int) -> bool:
-    """
-    pre: 0xDC80 <= c <= 0xDCFF
-    post: _
-    """
-    m = _msg("text/plain; charset=utf-8")
-    text = "x" + chr(c)
-    m.set_text(text)
-    return m.get_text(strict=False) == text
-
-
-def twin_surrogate_escape(c: int) -> bool:
-    """
-    pre: 0xDC80 <= c <= 0xDCFF
-    post: _
-    """
-    check_surrogate_escape(c)
-    return False
-
-
 def check_html(c: int) -> bool:
     """
     pre: 0 <= c <= 0x10FFFF
